@@ -724,7 +724,7 @@ func main() {
 	})
 	bound, genNodes := 2, 2
 	budget = 60_000
-	deadline = time.Now().Add(50 * time.Second)
+	deadline = time.Now().Add(90 * time.Second)
 	if rep.Thorough() {
 		bound, genNodes = 3, 3
 		budget = 3_000_000
